@@ -80,3 +80,32 @@ Proof.
   unfold K_OrderBookParticipation_ValidateWithdraw. cbn [gp_of G_OrderBookParticipation_IsSettled G_OrderBookParticipation_ParticipantAddress].
   destruct (p_settled p); [reflexivity|]. destruct (p_owner p =? depositor); reflexivity.
 Qed.
+
+(* GetOrderBookParticipation on the generated list of participations = get_part *)
+Lemma find_gp i (ps : list part) :
+  find (fun g => G_OrderBookParticipation_Index g =? i) (map gp_of ps) = option_map gp_of (findb (part_is i) ps).
+Proof.
+  unfold findb. induction ps as [|a r IH]; cbn [map find option_map]; [reflexivity|].
+  unfold part_is at 1. cbn [gp_of G_OrderBookParticipation_Index]. destruct (p_idx a =? i); [reflexivity|exact IH].
+Qed.
+
+(* ---- x/orderbook/keeper/participation.go CalcWithdrawalAmount (generated over: the participations of the book, the exposures recorded for the
+   participation asked about): what a house withdrawal may take IS the model's calc_withdrawal -------------------------------------------- *)
+Definition obwd_state (b : book) (idx : Z) : S_obwd :=
+  {| S_obwd_Parts := map gp_of (bk_parts b); S_obwd_PartExpos := map ge_of (expos_of_part_ix b idx) |}.
+Lemma gen_CalcWithdrawalAmount b depositor idx mode wtotal amount :
+  K_obwd_CalcWithdrawalAmount (obwd_state b idx) depositor idx mode wtotal amount = calc_withdrawal b depositor idx mode wtotal amount.
+Proof.
+  unfold K_obwd_CalcWithdrawalAmount, calc_withdrawal, obwd_state, get_part. cbn [S_obwd_Parts S_obwd_PartExpos].
+  rewrite find_gp. destruct (findb (part_is idx) (bk_parts b)) as [p|]; cbn [option_map negb]; [|reflexivity].
+  change (G_OrderBookParticipation_IsSettled (gp_of p)) with (p_settled p). destruct (p_settled p); [reflexivity|].
+  change (G_OrderBookParticipation_ParticipantAddress (gp_of p)) with (p_owner p). destruct (negb (p_owner p =? depositor)); [reflexivity|].
+  destruct (expos_of_part_ix b idx) as [|e r]; [reflexivity|].
+  cbn [map klen length]. replace (Z.of_nat (S (length (map ge_of r))) =? 0) with false by (symmetry; apply Z.eqb_neq; lia).
+  unfold knth. cbn [Z.ltb Z.compare Z.to_nat nth]. change (G_ParticipationExposure_Round (ge_of e)) with (e_round e).
+  destruct (negb (e_round e =? 1)); [reflexivity|].
+  unfold WM_PARTIAL. change (G_OrderBookParticipation_Liquidity (gp_of p)) with (p_liq p).
+  destruct (mode =? 2); cbn [andb].
+  - destruct (p_liq p - wtotal <? amount); [reflexivity|]. rewrite gen_WithdrawableAmount. destruct (withdrawable_amount p mode amount); reflexivity.
+  - rewrite gen_WithdrawableAmount. destruct (withdrawable_amount p mode amount); reflexivity.
+Qed.
